@@ -70,7 +70,7 @@ fn preamble() -> Component {
     component![
         "bMsgtype" => 0 as u8,
         "flag" => Check::new(Preambule::PreambleVersion30 as u8),
-        "wMsgSize" => DynOption::new(U16::LE(0), |size| MessageOption::Size("message".to_string(), size.inner() as usize - 4)),
+        "wMsgSize" => DynOption::new(U16::LE(0), |size| MessageOption::Size("message".to_string(), (size.inner() as usize).saturating_sub(4))),
         "message" => Vec::<u8>::new()
     ]
 }
